@@ -31,6 +31,12 @@ type c01Run struct {
 	docs  []*bkl.Document
 	rdocs []*ref.Doc
 	n     int
+	hist  []c01Added // every document handed to add, for replays
+}
+
+type c01Added struct {
+	data    any
+	parents bool
 }
 
 func newC01Run() *c01Run {
@@ -40,6 +46,7 @@ func newC01Run() *c01Run {
 func (r *c01Run) add(data any, parentsOfAll bool) (error, ref.Result) {
 	id := fmt.Sprintf("L%d", r.n)
 	r.n++
+	r.hist = append(r.hist, c01Added{core.Clone(data), parentsOfAll})
 	d := bkl.NewDocumentWithData(id, core.Clone(data))
 	rd := &ref.Doc{ID: id, Data: core.Clone(data)}
 	if parentsOfAll {
@@ -51,6 +58,57 @@ func (r *c01Run) add(data any, parentsOfAll bool) (error, ref.Result) {
 	err := r.p.MergeDocument(d)
 	res, _ := r.s.MergeDocument(rd)
 	return err, res
+}
+
+// maskable: the model rejects the last child, the implementation accepted it at merge time and
+// refuses only when asked for output. "Rejected with an error, never silently accepted" then still
+// has to hold when more layers follow: if one further layer that merely deletes a top-level key of
+// that child makes the whole chain evaluate, the useless or inapplicable override was silently
+// accepted after all.
+func (r *c01Run) maskable(c *core.Ctx, wit, why string) {
+	last, ok := r.hist[len(r.hist)-1].data.(map[string]any)
+	if !ok {
+		return
+	}
+	for _, k := range core.SortedKeys(last) {
+		if strings.HasPrefix(k, "$") {
+			continue
+		}
+		p := newParser()
+		var docs []*bkl.Document
+		okAll := true
+		for i, h := range append(append([]c01Added{}, r.hist...), c01Added{map[string]any{k: "$delete"}, true}) {
+			d := bkl.NewDocumentWithData(fmt.Sprintf("M%d", i), core.Clone(h.data))
+			if h.parents {
+				d.AddParents(docs...)
+			}
+			docs = append(docs, d)
+			c.Trans(1)
+			if err := p.MergeDocument(d); err != nil {
+				okAll = false
+				break
+			}
+		}
+		if !okAll {
+			continue
+		}
+		if outs, err := p.OutputDocuments(); err == nil {
+			c.Outcome("REJECTION-MASKED-BY-LATER-LAYER")
+			c.Fail("never-silently-accepted", "rejection-only-at-output-is-masked-by-a-later-layer", "maskable: "+c01WhyClass(why),
+				map[string]any{"chain": wit, "then": map[string]any{k: "$delete"}, "model": "reject: " + why, "output": outs})
+			return
+		}
+	}
+}
+
+// c01WhyClass strips the specifics from a model reason, so that findings of one kind share a witness.
+func c01WhyClass(why string) string {
+	for _, cut := range []string{":", "="} {
+		if i := strings.Index(why, cut); i > 0 {
+			why = why[:i]
+		}
+	}
+	return strings.TrimSpace(why)
 }
 
 // compare checks the implementation against the model after a layer.
@@ -78,6 +136,7 @@ func (r *c01Run) compare(c *core.Ctx, oracle, wit string, err error, res ref.Res
 		_, oerr := r.p.OutputDocuments()
 		if oerr != nil {
 			c.Outcome("rejected-at-output")
+			r.maskable(c, wit, res.Why)
 			return false
 		}
 		c.Outcome("WRONGLY-ACCEPTED")
@@ -499,9 +558,60 @@ func buildC01(tier string) *core.Plan {
 			c01Pair(c, "refMerge-added", map[string]any{"a": 1}, map[string]any{"a": core.Clone(v)})
 		}}
 
+	// a useless directive that arrives below a key the parent lacks, then is overridden by a third layer:
+	// somewhere along the chain there has to be an error ("never silently accepted")
+	type lateCase struct {
+		name          string
+		parent, child any
+		third         any
+	}
+	lates := []lateCase{
+		{"$delete below a new key", map[string]any{"a": 1}, map[string]any{"b": map[string]any{"c": "$delete"}}, map[string]any{"b": map[string]any{"c": 5}}},
+		{"list $match below a new key", map[string]any{"a": 1}, map[string]any{"b": []any{map[string]any{"$match": map[string]any{"x": 1}, "y": 2}}}, map[string]any{"b": []any{"$replace", 1}}},
+		{"list $delete below a new key", map[string]any{"a": 1}, map[string]any{"b": []any{map[string]any{"$delete": 1}}}, map[string]any{"b": []any{"$replace", 1}}},
+		{"$delete two levels below a new key", map[string]any{"a": 1}, map[string]any{"n": map[string]any{"m": map[string]any{"c": "$delete", "k": 1}}}, map[string]any{"n": map[string]any{"m": map[string]any{"c": 5}}}},
+		// controls: the same directives against a parent that has the key are refused at once
+		{"control: $delete of a missing key in an existing map", map[string]any{"b": map[string]any{"k": 1}}, map[string]any{"b": map[string]any{"c": "$delete"}}, map[string]any{"b": map[string]any{"c": 5}}},
+	}
+	lateSpace := core.Space{Name: "useless-directive-below-a-new-key-then-overridden", N: int64(len(lates)), Chunk: 1,
+		Desc: func(i int64) any { return lates[i] },
+		Run: func(c *core.Ctx, i int64) {
+			lc := lates[i]
+			c.Eval()
+			c.Trans(4)
+			p := newParser()
+			var docs []*bkl.Document
+			failedAt := ""
+			for k, data := range []any{lc.parent, lc.child, lc.third} {
+				d := bkl.NewDocumentWithData(fmt.Sprintf("L%d", k), core.Clone(data))
+				d.AddParents(docs...)
+				docs = append(docs, d)
+				if err := p.MergeDocument(d); err != nil {
+					failedAt = fmt.Sprintf("layer %d", k)
+					break
+				}
+			}
+			var outs []any
+			if failedAt == "" {
+				var err error
+				if outs, err = p.OutputDocuments(); err != nil {
+					failedAt = "output"
+				}
+			}
+			c.Validated()
+			c.Nontrivial()
+			if failedAt == "" {
+				c.Outcome("USELESS-DIRECTIVE-SILENTLY-ACCEPTED")
+				c.Fail("never-silently-accepted", "useless-directive-masked-by-a-later-layer", "late: "+lc.name,
+					map[string]any{"parent": lc.parent, "child": lc.child, "third": lc.third, "output": outs})
+				return
+			}
+			c.Outcome("refused at " + failedAt)
+		}}
+
 	return &core.Plan{
 		Spaces: func() []core.Space {
-			sp := []core.Space{product, listSpace, shapeSpace, fanout, chain, files, kindSpace, addSpace, bigSpace}
+			sp := []core.Space{product, listSpace, shapeSpace, fanout, chain, files, kindSpace, addSpace, bigSpace, lateSpace}
 			if tier != "thorough" {
 				sp = append(sp, product4)
 			}
